@@ -330,6 +330,83 @@ Definition case_pair (l : list Z) : list Z :=
   | None => [-1]
   end.
 
+(** ** geo conversions (kinds 10, 11, 12) *)
+From SF Require Import Model.Geo.
+Definition K_GEO_TO : Z := 10.
+Definition K_GEO_FROM : Z := 11.
+Definition K_GEO_DIMS : Z := 12.
+
+Definition p_coord : parser coord := x <- p_next ;; y <- p_next ;; p_ret (x, y).
+Definition p_coords : parser (list coord) := p_list p_coord.
+Definition p_gpoly : parser gpoly := e <- p_coords ;; i <- p_list p_coords ;; p_ret (gpoly_new e i).
+
+Definition p_geo : parser geom :=
+  k <- p_next ;;
+  if k =? 1 then c <- p_coord ;; p_ret (GPoint c)
+  else if k =? 2 then a <- p_coord ;; b <- p_coord ;; p_ret (GLine a b)
+  else if k =? 3 then l <- p_coords ;; p_ret (GLineString l)
+  else if k =? 4 then p <- p_gpoly ;; p_ret (GPolygon p)
+  else if k =? 5 then l <- p_coords ;; p_ret (GMultiPoint l)
+  else if k =? 6 then l <- p_list p_coords ;; p_ret (GMultiLineString l)
+  else if k =? 7 then l <- p_list p_gpoly ;; p_ret (GMultiPolygon l)
+  else if k =? 8 then p_ret GCollection
+  else if k =? 9 then a <- p_coord ;; b <- p_coord ;; p_ret (GRect a b)
+  else if k =? 10 then a <- p_coord ;; b <- p_coord ;; c <- p_coord ;; p_ret (GTriangle a b c)
+  else p_fail.
+
+Definition r_coords (l : list coord) : list Z := zlen l :: flat_map (fun c => [fst c; snd c]) l.
+Definition r_gpoly (p : gpoly) : list Z := r_coords (gp_ext p) ++ zlen (gp_ints p) :: flat_map r_coords (gp_ints p).
+Definition r_geo (g : geom) : list Z :=
+  match g with
+  | GPoint c => [1; fst c; snd c]
+  | GLine a b => [2; fst a; snd a; fst b; snd b]
+  | GLineString l => 3 :: r_coords l
+  | GPolygon p => 4 :: r_gpoly p
+  | GMultiPoint l => 5 :: zlen l :: flat_map (fun c => [fst c; snd c]) l
+  | GMultiLineString l => 6 :: zlen l :: flat_map r_coords l
+  | GMultiPolygon l => 7 :: zlen l :: flat_map r_gpoly l
+  | _ => [99]
+  end.
+
+Definition r_from (r : res shape) (k : shape -> list Z) : list Z :=
+  match r with Ok s => 0 :: r_shape s ++ k s | Err _ => [1] | Panic => [2] end.
+
+Definition case_geo_to (l : list Z) : list Z :=
+  match p_ctor l with
+  | Some (c, []) =>
+      match build c with
+      | Ok s =>
+          match to_geo s with
+          | None => [1]
+          | Some g => 0 :: r_geo g ++ r_from (from_geo g) (fun _ => [])
+          end
+      | _ => [-3]
+      end
+  | _ => [-1]
+  end.
+
+Definition case_geo_from (l : list Z) : list Z :=
+  match p_geo l with
+  | Some (g, []) => r_from (from_geo g) (fun s => match to_geo s with None => [1] | Some g2 => 0 :: r_geo g2 end)
+  | _ => [-1]
+  end.
+
+Definition case_geo_dims (l : list Z) : list Z :=
+  match l with
+  | code :: rest =>
+      match dim_of_family 1 code with
+      | Some d =>
+          match p_pt d rest with
+          | Some (p, []) =>
+              let n := coord_dim d p in
+              n :: flat_map (fun i => match coord_nth d p (Z.of_nat i) with Ok v => [0; v] | _ => [2] end) (seq 0 (Z.to_nat n))
+          | _ => [-1]
+          end
+      | None => [-1]
+      end
+  | _ => [-1]
+  end.
+
 Definition run_case2 (l : list Z) : list Z :=
   match l with
   | k :: r =>
@@ -338,6 +415,9 @@ Definition run_case2 (l : list Z) : list Z :=
       else if k =? K_REF then case_ref r
       else if k =? K_CONV then case_conv r
       else if k =? K_PAIR then case_pair r
+      else if k =? K_GEO_TO then case_geo_to r
+      else if k =? K_GEO_FROM then case_geo_from r
+      else if k =? K_GEO_DIMS then case_geo_dims r
       else run_case l
   | [] => [-1]
   end.
